@@ -436,9 +436,13 @@ func runResp(g *gateway, c *respCase, w *vt.Writer) bool {
 	a0, err := g.totalAlloc()
 	if err != nil {
 		if g.diesWithin(10 * time.Second) {
-			return false // killed by the previous case after that case had been recorded as alive: run again on a fresh gateway
+			return false // killed by an earlier case after that case had been recorded as alive: run again on a fresh gateway
 		}
-		fatal("metrics before case %d: %v", c.ID, err)
+		if a0, err = g.totalAllocSlow(); err != nil {
+			// alive but not answering for 80 s: an earlier case left it in that state; note it and start afresh
+			w.Emit(vt.Ev{"s": -1, "stalled_before": c.ID})
+			return false
+		}
 	}
 	conn, err := net.DialTimeout("tcp", g.addr, ioTimeout)
 	if err != nil {
